@@ -4,6 +4,7 @@
 pub mod capsule;
 pub mod cards;
 pub mod derived;
+pub mod enrich;
 pub mod hist;
 pub mod maint;
 pub mod record;
@@ -209,6 +210,18 @@ pub fn main() {
             let sizes: Vec<usize> = args.str("sizes").unwrap_or("4,1000").split(',').filter_map(|s| s.parse().ok()).collect();
             let mut rep = Report::new("C29", "capsules", seed, "files 'MV2\\0' + random bytes of the given sizes (around the 1 MiB chunk size): lock, unlock, compare; then mutants of the capsule: header bytes (every field), every length-prefix byte, ciphertext/tag bytes, truncation at every chunk boundary, boundary +-1..4 and random offsets, chunk swap / removal / duplication, appended garbage; oracle = unlock fails and the output path is untouched; a case is one unlock; distinct = distinct rejected mutants");
             capsule::c29(&mut rep, &scratch, &mut Rng::new(seed), &sizes, args.flag("thorough"));
+            rep
+        }
+        "c41" => {
+            let seed = args.u64("seed", 1);
+            let scratch = PathBuf::from(args.str("scratch").unwrap_or("."));
+            let mut rep = Report::new("C41", "enrichment-worker-race", seed, "the real start_enrichment_worker thread (task_delay 0..5 ms, checkpoint interval 1..3 or 100) on Arc<Mutex<Memvid>> against a foreground history of 12..40 steps (puts that queue enrichment, plain puts, commits, searches, deletes of un-queued documents, frame reads; in a quarter of the histories also the one-shot embedding worker); pseudo-random sleeps/yields injected before each of the worker's four lock acquisitions (cfg hook) and between foreground steps; after the queue drained and the worker stopped the frame table, enrichment states, queue, worker statistics and searches are compared with the sequential model, also after reopen; a case is one foreground step; distinct = distinct interleavings (hash of the merged ordered event log of both threads)");
+            if let Some(p) = args.str("replay") {
+                let detail: Value = std::fs::read_to_string(p).ok().and_then(|s| serde_json::from_str(&s).ok()).unwrap_or(Value::Null);
+                enrich::replay(&mut rep, &scratch, &detail);
+            } else {
+                enrich::c41(&mut rep, &scratch, &mut Rng::new(seed), args.u64("histories", 4));
+            }
             rep
         }
         "runhist" => record::runhist(&args),
